@@ -3,14 +3,6 @@ From PV Require Import Base.Prelude Base.Decimal MaildirFS.FS MaildirFS.UidList 
   MaildirFS.Spec MaildirFS.FSProofs MaildirFS.Legal.
 Local Open Scope N_scope.
 
-Lemma lookup_In m p n : lookup m p = Some n -> In (p, n) m.
-Proof.
-  induction m as [|[q x] m IH]; cbn [lookup]; intro H; [discriminate|].
-  destruct (path_eqb q p) eqn:E.
-  - apply path_eqb_eq in E. subst. injection H as <-. left. reflexivity.
-  - right. exact (IH H).
-Qed.
-
 Lemma bytes_eqb_refl b : bytes_eqb b b = true.
 Proof. apply bytes_eqb_eq. reflexivity. Qed.
 Lemma fname_eqb_refl f : fname_eqb f f = true.
@@ -72,18 +64,30 @@ Proof.
 Qed.
 
 Lemma install_ok_sound m f n : install_ok m f n = true ->
-  exists t u', lookup m (PTmp f n) = Some (File (Text t)) /\ parse_uidl t = Ok u'
-    /\ uids_ok u' /\ (forall u, uidl_at m f u -> extends (has_file m f) u u').
+  exists u', lookup m (PTmp f n) = Some (File (Text (print_uidl u')))
+    /\ wf_uidl u' = true /\ uids_ok u'
+    /\ (forall u, uidl_at m f u -> extends (has_file m f) u u').
 Proof.
   unfold install_ok.
   destruct (lookup m (PTmp f n)) as [[|[id|t]]|] eqn:E; try discriminate.
   destruct (parse_uidl t) as [u'| | |] eqn:P; try discriminate.
-  intro H. apply andb_true_iff in H as [H1 H2].
-  exists t, u'. split; [reflexivity|]. split; [exact P|]. split; [exact (uids_ok_b_sound _ H1)|].
+  intro H. apply andb_true_iff in H as [H H2]. apply andb_true_iff in H as [H H1].
+  apply andb_true_iff in H as [Hp Hw]. apply bytes_eqb_eq in Hp.
+  exists u'. split; [rewrite Hp; reflexivity|]. split; [exact Hw|].
+  split; [exact (uids_ok_b_sound _ H1)|].
   intros u [t0 [Hl0 Hp0]]. rewrite Hl0, Hp0 in H2. exact (extends_b_sound _ _ _ _ H2).
 Qed.
 
-Theorem legal_b_sound m o : legal_b m o = true -> legal m o.
+Lemma rename_ok_b_sound lay m a b : rename_ok_b lay m a b = true -> rename_ok lay m a b.
+Proof.
+  unfold rename_ok_b, rename_clear. intros H p q Hp Hq E.
+  apply in_map_iff in Hp as [[p' x] [<- Hp]]. apply in_map_iff in Hq as [[q' y] [<- Hq]].
+  cbn [fst] in *. rewrite forallb_forall in H. specialize (H _ Hp). rewrite forallb_forall in H.
+  specialize (H _ Hq). cbn [fst] in H. rewrite E, path_eqb_refl in H. cbn [implb] in H.
+  apply path_eqb_eq. exact H.
+Qed.
+
+Theorem legal_b_sound lay m o : legal_b lay m o = true -> legal lay m o.
 Proof.
   destruct o as [p|p|p|p c|p q|a b|p q|p|p]; cbn [legal_b]; intro H; try discriminate.
   - apply L_mkdir.
@@ -95,22 +99,26 @@ Proof.
       apply andb_true_iff in H as [H H4]. apply andb_true_iff in H as [H H3].
       apply andb_true_iff in H as [H1 H2]. apply bytes_eqb_eq in H3. subst k'.
       apply orb_true_iff in H4 as [H4|H4].
-      * apply fname_eqb_eq in H4. subst g. apply L_flags; assumption.
+      * apply andb_true_iff in H4 as [H4 H5]. apply fname_eqb_eq in H4. subst g.
+        apply L_flags; assumption.
       * apply bytes_eqb_eq in H4. subst i'. apply L_move; assumption.
     + destruct q as [| | |g c|]; try (destruct f; discriminate).
       destruct c; try (destruct f, g; discriminate).
       * assert (H' : fname_eqb f g && install_ok m f n = true) by (destruct f, g; exact H).
         clear H. apply andb_true_iff in H' as [H1 H2]. apply fname_eqb_eq in H1. subst g.
-        destruct (install_ok_sound _ _ _ H2) as [t [u' [Hl [Hp [Hu He]]]]].
+        destruct (install_ok_sound _ _ _ H2) as [u' [Hl [Hw [Hu He]]]].
         eapply L_install; eassumption.
       * destruct f; [|discriminate]. destruct g; [|discriminate]. apply L_subs.
+  - apply L_renamedir. exact (rename_ok_b_sound _ _ _ _ H).
   - destruct p as [| |f s k i| |]; try discriminate.
     destruct s; try discriminate. destruct i; try discriminate.
     destruct q as [| |g s' k' i'| |]; try discriminate.
-    apply andb_true_iff in H as [H H4]. apply andb_true_iff in H as [H H3].
-    apply andb_true_iff in H as [H1 H2].
+    apply andb_true_iff in H as [H H7]. apply andb_true_iff in H as [H H6].
+    apply andb_true_iff in H as [H H5]. apply andb_true_iff in H as [H H4].
+    apply andb_true_iff in H as [H H3]. apply andb_true_iff in H as [H1 H2].
     apply fname_eqb_eq in H1. apply bytes_eqb_eq in H2. subst g k'.
-    apply L_link; [exact H3|exact (key_unused_b_sound _ _ H4)].
+    destruct (lookup m (PMsg f STmp k [])) as [[|[c|]]|] eqn:El; try discriminate.
+    eapply L_link; [exact H3|exact (key_unused_b_sound _ _ H4)|exact H5|exact H6|exact El].
   - apply orb_true_iff in H as [H|H]; [apply L_unlink_junk; exact H|].
     destruct p as [| |f s k i|f c|]; try discriminate.
     + apply L_expunge. exact H.
@@ -125,31 +133,71 @@ Proof.
   - injection A as <-. constructor.
   - apply andb_true_iff in H as [H1 H2].
     destruct (apply_op lay m o) as [m1|] eqn:E; [|discriminate].
-    econstructor; [exact (legal_b_sound _ _ H1)|exact E|exact (IH _ H2 A)].
+    econstructor; [exact (legal_b_sound _ _ _ H1)|exact E|exact (IH _ H2 A)].
 Qed.
 
 (* the part of an operation list that is executed (up to the first failing
    operation) is a legal run, for every crash point *)
-Lemma legal_ops_b_crash lay m l k :
+Lemma legal_ops_b_applied lay m l :
   legal_ops_b lay m l = true ->
-  exists l', legal_run lay m l' (fst (apply_ops lay m (crash k l)))
-             /\ (forall key, touched l' key -> touched (crash k l) key)
-             /\ exists rest, crash k l = l' ++ rest.
+  legal_run lay m (applied lay m l) (fst (apply_ops lay m l)).
 Proof.
-  revert m k. induction l as [|o l IH]; intros m k H.
-  - exists []. unfold crash. rewrite firstn_nil. cbn. split; [constructor|].
-    split; [intros ? T; exact T|exists []; reflexivity].
-  - destruct k as [|k].
-    + exists []. cbn. split; [constructor|]. split; [intros ? T; exact T|exists []; reflexivity].
-    + cbn [legal_ops_b] in H. apply andb_true_iff in H as [H1 H2].
-      unfold crash in *. cbn [firstn apply_ops].
-      destruct (apply_op lay m o) as [m1|] eqn:E.
-      * destruct (IH m1 k H2) as [l' [R [T [rest Er]]]].
-        exists (o :: l'). split; [econstructor; [exact (legal_b_sound _ _ H1)|exact E|exact R]|].
-        split.
-        -- intros key Hk. inversion Hk; subst; [apply Exists_cons_hd; assumption|].
-           apply Exists_cons_tl. apply T. assumption.
-        -- exists rest. cbn [app]. rewrite Er. reflexivity.
-      * exists []. cbn. split; [constructor|].
-        split; [intros ? T; inversion T|exists (o :: firstn k l); reflexivity].
+  revert m. induction l as [|o l IH]; intros m H; cbn [applied apply_ops]; [constructor|].
+  cbn [legal_ops_b] in H. apply andb_true_iff in H as [H1 H2].
+  destruct (apply_op lay m o) as [m1|] eqn:E; [|constructor].
+  econstructor; [exact (legal_b_sound _ _ _ H1)|exact E|exact (IH _ H2)].
+Qed.
+
+Lemma applied_prefix lay m l : exists rest, l = applied lay m l ++ rest.
+Proof.
+  revert m. induction l as [|o l IH]; intro m; cbn [applied]; [exists []; reflexivity|].
+  destruct (apply_op lay m o) as [m1|]; [|exists (o :: l); reflexivity].
+  destruct (IH m1) as [rest E]. exists rest. cbn [app]. rewrite <- E. reflexivity.
+Qed.
+
+Lemma legal_ops_b_prefix lay m l1 l2 :
+  legal_ops_b lay m (l1 ++ l2) = true -> legal_ops_b lay m l1 = true.
+Proof.
+  revert m. induction l1 as [|o l1 IH]; intros m H; [reflexivity|].
+  cbn [app legal_ops_b] in *. apply andb_true_iff in H as [H1 H2].
+  rewrite H1. cbn [andb]. destruct (apply_op lay m o); [exact (IH _ H2)|reflexivity].
+Qed.
+
+Lemma legal_ops_b_crash lay m l k :
+  legal_ops_b lay m l = true -> legal_ops_b lay m (crash k l) = true.
+Proof. intro H. apply (legal_ops_b_prefix lay m (crash k l) (skipn k l)).
+  unfold crash. rewrite firstn_skipn. exact H. Qed.
+
+(* ---------------------------------------------- the invariant, decided *)
+Lemma nodup_paths_sound l : nodup_paths l = true -> NoDup l.
+Proof.
+  induction l as [|p l IH]; cbn [nodup_paths]; intro H; [constructor|].
+  apply andb_true_iff in H as [H1 H2]. constructor; [|exact (IH H2)].
+  intro Hin. apply negb_true_iff in H1.
+  assert (existsb (path_eqb p) l = true)
+    by (apply existsb_exists; exists p; split; [exact Hin|apply path_eqb_refl]).
+  congruence.
+Qed.
+
+Theorem inv_b_sound m : inv_b m = true -> Inv m.
+Proof.
+  unfold inv_b. intro H. apply andb_true_iff in H as [H H3]. apply andb_true_iff in H as [H1 H2].
+  pose proof (nodup_paths_sound _ H1) as Hnd. rewrite forallb_forall in H2. split.
+  - intros f n Hl. pose proof (H2 _ (lookup_In _ _ _ Hl)) as He. cbn [entry_ok] in He.
+    destruct n as [|[c|t]]; try discriminate.
+    destruct (parse_uidl t) as [u| | |] eqn:P; try discriminate.
+    apply andb_true_iff in He as [He Hu]. apply andb_true_iff in He as [Hp Hw].
+    apply bytes_eqb_eq in Hp. exists u. split; [rewrite Hp; reflexivity|].
+    split; [exact Hw|exact (uids_ok_b_sound _ Hu)].
+  - intros f s i n f' s' i' n' k Hs Hs' Hl Hl'.
+    unfold keys_unique_b in H3. rewrite forallb_forall in H3.
+    pose proof (H3 _ (lookup_In _ _ _ Hl)) as Ha. rewrite forallb_forall in Ha.
+    specialize (Ha _ (lookup_In _ _ _ Hl')). cbn [fst] in Ha.
+    rewrite Hs, Hs', bytes_eqb_refl in Ha. cbn [andb implb] in Ha.
+    apply path_eqb_eq in Ha. inversion Ha. repeat split; reflexivity.
+  - intros f s k i n Hs Hl. pose proof (H2 _ (lookup_In _ _ _ Hl)) as He. cbn [entry_ok] in He.
+    rewrite Hs in He. apply andb_true_iff in He as [He Hn]. apply andb_true_iff in He as [Hk Hi].
+    split; [exact Hk|]. split; [exact Hi|]. destruct n as [|[c|t]]; try discriminate.
+    exists c. reflexivity.
+  - exact Hnd.
 Qed.
